@@ -208,11 +208,22 @@ def rule_g1(ctx: Ctx) -> None:
             ctx.ok("C12-G1", helper.where, "only caller is the guarded public entry point", helper.node, helper)
     # empty permutation shortcut returns the empty permutation
     first = f.body[1] if len(f.body) > 1 else None
-    if isinstance(first, ast.If) and unparse(first.test) in ("n == 0", f"len({perm}) == 0", f"not {perm}") and unparse(first.body[0]) in ("return Perm()", f"return {perm}"):
+    from ..core import inlined_text
+
+    if isinstance(first, ast.If) and inlined_text(f, first.test) in (f"len({perm}) == 0", f"not {perm}") and unparse(first.body[0]) in ("return Perm()", f"return {perm}"):
         ctx.ok("C12-G1", f.where, "empty permutation maps to itself", first, f)
 
 
+GENERIC_FILES = ['permuta/patterns/perm.py', 'permuta/permutils/bijections.py', 'permuta/bisc/perm_properties.py', 'permuta/permutils/groups.py']
+
+
 def variants():
+    from ..selftest import generic_silent
+
+    return _variants() + generic_silent(GENERIC_FILES)
+
+
+def _variants():
     from ..selftest import V, insert_stmt, reformat_only, rename_local, replace_expr, replace_stmt
 
     PE, BJ = "permuta/patterns/perm.py", "permuta/permutils/bijections.py"
